@@ -18,7 +18,12 @@ static void c01_run(void) {
 		g.poolblock = 1; g.qkindmask = 1u << QK_GLOBAL | 1u << QK_SERIAL; g.min_queues = 2; g.max_queues = 3; g.max_ops = 5; break;
 	case 5: /* gate: asynchronous forms return without any item having run */
 		g.gate = 1; g.max_ops = 6; break;
-	default: break;
+	default:
+		// the general shape also takes workloops and, now and then, the main queue
+		if (g_chance(1, 3)) g.qkindmask |= 1u << QK_WORKLOOP;
+		if (g_chance(1, 6)) { g.use_main = 1; g.qkindmask |= 1u << QK_MAIN; }
+		g.opmask |= 1u << OP_BARRIER_AAW;
+		break;
 	}
 	if (g_chance(1, 6)) g.opmask |= 1u << OP_APPLY;
 	qprog_run(&g);
